@@ -168,7 +168,7 @@ def line_of_token(toks, i):
     return 1 + sum(1 for t in toks[:i] if t[1] == 'nl')
 
 
-def apply_op(toks, owner, op, tier_chars=None):
+def apply_op(toks, owner, op, tier_chars=None, elem_names=None):
     """-> (new tokens, info) ; info describes a targeted replacement (for the strict oracle) or is None.
     `toks` is not modified.  An op that has no eligible position is the identity."""
     name, p, q, w = op['op'], op['p'], op['q'], op['w']
@@ -179,6 +179,13 @@ def apply_op(toks, owner, op, tier_chars=None):
 
     def pick(seq):
         return seq[p % len(seq)] if seq else None
+
+    def prefer_instructions(cands):
+        """targeted ops: 3 of 4 go to an instruction that is not a definition, if there is one"""
+        if owner and elem_names and q % 4 != 0:
+            pref = [i for i in cands if elem_names[owner[i]] != 'def']
+            return pref or cands
+        return cands
 
     if name == 'del':
         i = pick(movable)
@@ -291,7 +298,7 @@ def apply_op(toks, owner, op, tier_chars=None):
             toks[i] = [voc[w % len(voc)][0], 'mut']
     elif name in ('badval', 'extreme'):
         cands = [i for i in movable if toks[i][1] in VALUE_KINDS and (name == 'extreme' or BAD[toks[i][1]])]
-        i = pick(cands)
+        i = pick(prefer_instructions(cands))
         if i is not None:
             kind = toks[i][1]
             voc = BAD[kind] if name == 'badval' else EXTREME[kind]
@@ -305,7 +312,7 @@ def apply_op(toks, owner, op, tier_chars=None):
     elif name == 'wrongref':
         cands = [i for i in movable if toks[i][1].startswith('ref:') or
                  (toks[i][1].startswith('sref:') and re.fullmatch(r'@\[[A-Za-z0-9_]+\]@', toks[i][0]))]
-        i = pick(cands)
+        i = pick(prefer_instructions(cands))
         if i is not None:
             old, kind = toks[i]
             old_name = old[2:-2] if old.startswith('@[') else old
@@ -365,6 +372,9 @@ def mutate(doc, mutant, tier_chars=None):
         files.append(G.flatten(doc['inc']))
     toks = [f[0] for f in files]
     owners = [f[1] for f in files]
+    names = [[e['name'] for e in doc['elems']]]
+    if doc.get('inc') is not None:
+        names.append([e['name'] for e in doc['inc']])
     infos = []
     text_ops = []
     structure_kept = True
@@ -374,7 +384,7 @@ def mutate(doc, mutant, tier_chars=None):
             text_ops.append((f, op))
             structure_kept = False
             continue
-        new, info = apply_op(toks[f], owners[f] if structure_kept else None, op, tier_chars)
+        new, info = apply_op(toks[f], owners[f] if structure_kept else None, op, tier_chars, names[f])
         if info is not None:
             infos.append((f, info))
         else:
@@ -422,6 +432,14 @@ def gate(text):
 
 
 # ---- strategies ---------------------------------------------------------------------------------------------------------
+def _mix(x, k):
+    """a fixed 32-bit mixing function (Hypothesis favours small integers and index 0; the fields of an op should not)"""
+    x = (x + 0x9e3779b9 * (k + 1)) & 0xffffffff
+    x = ((x ^ (x >> 16)) * 0x45d9f3b) & 0xffffffff
+    x = ((x ^ (x >> 16)) * 0x45d9f3b) & 0xffffffff
+    return x ^ (x >> 16)
+
+
 def op_strategy(names, weights=None):
     if weights:
         pool = []
@@ -429,13 +447,14 @@ def op_strategy(names, weights=None):
             pool.extend([n] * weights.get(n, 1))
     else:
         pool = list(names)
-    return st.fixed_dictionaries({
-        'op': st.sampled_from(pool),
-        'f': st.sampled_from([0, 0, 0, 1]),
-        'p': st.integers(0, 4095),
-        'q': st.integers(0, 63),
-        'w': st.integers(0, 4095),
-    })
+
+    def decode(abc):
+        x = _mix(abc[0], 11) ^ _mix(abc[1], 12) ^ _mix(abc[2], 13)
+        return {'op': pool[_mix(x, 0) % len(pool)], 'f': 1 if _mix(x, 1) % 4 == 3 else 0, 'p': _mix(x, 2) % 4096,
+                'q': _mix(x, 3) % 64, 'w': _mix(x, 4) % 4096}
+
+    i32 = st.integers(0, 2 ** 32 - 1)
+    return st.tuples(i32, i32, i32).map(decode)
 
 
 def choice_op(nxt, names):
